@@ -12,8 +12,13 @@ def _lstr(s):
 
 
 def _chars(s):
-    """Lean `List Char` term"""
-    return _lstr(s) + ".toList"
+    """Lean `List Char` term, spelled out (kernel-friendly: `decide +kernel` never has to decode a String literal)"""
+    out = []
+    for c in s:
+        if not (32 <= ord(c) < 127):
+            raise RuntimeError("non-ASCII name %r" % s)
+        out.append("'\\''" if c == "'" else ("'\\\\'" if c == "\\" else "'%s'" % c))
+    return "[" + ",".join(out) + "]"
 
 
 def _ordered(node):
